@@ -20,7 +20,8 @@ from pbt.common import REPO, Result, cut
 ID = "C31"
 LEVEL = "exploration"
 RULE = ("generated smoke runs (rydberg on emu-sv/emu-mps, XY on emu-mps; Lindblad noise on/off; SLM; custom "
-        "interaction matrix; every Observable class exported by the two packages constructed and requested) under "
+        "interaction matrix; every Observable class exported by the two packages constructed - with explicit evaluation "
+        "times, with the constructor's own defaults, with and without tag_suffix - and requested) under "
         "the installed pulser-core, which must satisfy the declared specifier; non-trivial = run returned Results "
         "with >=2 atoms and >=1 pulse; distinct = case hash")
 ASSUMPTIONS = ["only one pulser-core release is available offline (the installed one); the quantifier over versions "
@@ -55,6 +56,8 @@ def _cases(draw):
         "dt": draw(st.sampled_from([5, 10, 7])),
         "custom_matrix": draw(st.booleans()),
         "evals": draw(st.sampled_from([[1.0], [0.5, 1.0], [0.0, 1.0]])),
+        # how each observable is constructed: explicit times / the constructor's own defaults / defaults + tag_suffix
+        "ctor": draw(st.sampled_from(["explicit", "default", "default_suffix", "explicit_suffix"])),
         "seed": draw(st.integers(0, 2**20)),
     }
 
@@ -130,26 +133,35 @@ def check_case(case) -> Result:
 
     obs = []
     want = {}
+    ctor = case.get("ctor", "explicit")
+    r.label("ctor:" + ctor)
     for name in pkg.__all__:
         o = getattr(pkg, name, None)
         if not (isinstance(o, type) and issubclass(o, pulser.backend.Observable)):
             continue
         if name == "Expectation" and case["backend"] == "sv" and nm is not None:
             continue  # documented: DenseOperator.expect supports state vectors only
+        ckw = {}
+        if ctor.startswith("explicit"):
+            ckw["evaluation_times"] = evals
+        if ctor.endswith("suffix"):
+            ckw["tag_suffix"] = "v"
         if name == "Fidelity":
-            inst = cut(o, state, evaluation_times=evals)
+            inst = cut(o, state, **ckw)
         elif name == "Expectation":
-            inst = cut(o, oper, evaluation_times=evals)
+            inst = cut(o, oper, **ckw)
         elif name == "EntanglementEntropy":
-            inst = cut(o, 0, evaluation_times=evals)
+            inst = cut(o, 0, **ckw)
         elif name == "BitStrings":
-            inst = cut(o, evaluation_times=evals, num_shots=20)
+            inst = cut(o, num_shots=20, **ckw)
         else:
-            inst = cut(o, evaluation_times=evals)
+            inst = cut(o, **ckw)
         obs.append(inst)
         want[inst.tag] = len(evals)
         r.label("obs:" + name)
 
+    if ctor.startswith("default"):
+        kw["default_evaluation_times"] = evals  # observables built without times are evaluated at the config's defaults
     cfg = cut(Config, dt=case["dt"], observables=obs, log_level=logging.ERROR, **base, **kw)
     backend = cut(Backend, seq, config=cfg)
     res = cut(backend.run)
